@@ -54,6 +54,9 @@ def sensitivity(ids):
         patch = os.path.join(HERE, "seeded", sid, "patch.diff")
         if not os.path.exists(patch):
             continue
+        if not meta.get("caught_by", [meta["property"]]):
+            print("%s: outside the property's quantifier (kept for the record, not expected to be caught)" % sid)
+            continue
         out = subprocess.run([os.path.join(HERE, "tools", "try_mutant.sh"), patch, os.environ.get("VERIF_SENS_BUDGET", "25")] + meta.get("caught_by", [meta["property"]]),
                              capture_output=True, text=True, timeout=3600)
         caught = "VIOLATION property=" in out.stdout
